@@ -124,3 +124,34 @@ func (g *Gen) liteRangeFacts(v Term, t types.Type, depth int) []Term {
 	}
 	return out
 }
+
+// countEq(m, v): the number of keys of map m whose value is v. It is an uninterpreted function of the
+// map's contents; every single-key update states how it changes (true of finite-map cardinalities).
+func (g *Gen) cntFun(mt *types.Map) (string, Sort, Sort, bool) {
+	ks := g.u.sortOf(mt.Key())
+	vs := g.u.sortOf(mt.Elem())
+	if vs != SInt && vs != SBool {
+		return "", "", "", false
+	}
+	name := "cnt_" + shortTypeName(types.Unalias(mt.Key())) + "_" + shortTypeName(types.Unalias(mt.Elem()))
+	g.u.declareFun(name, []Sort{arraySort(ks, SBool), arraySort(ks, vs), vs}, SInt)
+	return name, ks, vs, true
+}
+
+// mapCountFact relates countEq before and after the update of key k (newV nil: deletion).
+func (c *FnCtx) mapCountFact(mt *types.Map, oldHas, oldVal, newHas, newVal, k Term, newV *Term) {
+	name, _, vs, ok := c.g.cntFun(mt)
+	if !ok {
+		return
+	}
+	v := Term{"cv!", vs}
+	oldC := mk(SInt, name, oldHas, oldVal, v)
+	newC := mk(SInt, name, newHas, newVal, v)
+	minus := ite(and(sel(oldHas, k), eq(sel(oldVal, k), v)), intLit(1), tZero)
+	plus := tZero
+	if newV != nil {
+		plus = ite(eq(*newV, v), intLit(1), tZero)
+	}
+	c.define(Term{fmt.Sprintf("(forall ((cv! %s)) (! (and (= %s (+ (- %s %s) %s)) (>= %s 0) (>= %s 0)) :pattern (%s) :pattern (%s)))",
+		vs, newC.S, oldC.S, minus.S, plus.S, oldC.S, newC.S, newC.S, oldC.S), SBool})
+}
